@@ -22,21 +22,48 @@ void SoPlex_free(void* soplex)
 int SoPlex_readInstanceFile(void* soplex, const char* filename)
 {
    SoPlex* so = (SoPlex*)(soplex);
-   return so->readFile(filename);
+
+   // a C caller cannot catch C++ exceptions (e.g. thrown by the stream layer for a missing file)
+   try
+   {
+      return so->readFile(filename);
+   }
+   catch(const std::exception&)
+   {
+      return 0;
+   }
 }
 
 /** reads basis information from filename and returns true on success **/
 int SoPlex_readBasisFile(void* soplex, const char* filename)
 {
    SoPlex* so = (SoPlex*)(soplex);
-   return so->readBasisFile(filename);
+
+   // a C caller cannot catch C++ exceptions (e.g. thrown by the stream layer for a missing file)
+   try
+   {
+      return so->readBasisFile(filename);
+   }
+   catch(const std::exception&)
+   {
+      return 0;
+   }
 }
 
 /** reads settings from filename and returns true on success **/
 int SoPlex_readSettingsFile(void* soplex, const char* filename)
 {
    SoPlex* so = (SoPlex*)(soplex);
-   return so->loadSettingsFile(filename);
+
+   // a C caller cannot catch C++ exceptions (e.g. thrown by the stream layer for a missing file)
+   try
+   {
+      return so->loadSettingsFile(filename);
+   }
+   catch(const std::exception&)
+   {
+      return 0;
+   }
 }
 
 /** clears the (floating point) LP **/
